@@ -19,7 +19,7 @@ def _tagged(tag, role):
 NS = {
     'Int': INT, 'Real': REAL, 'Bool': BOOL,
     'Arr1': TArr('float', 1), 'Arr2': TArr('float', 2), 'Arr3': TArr('float', 3),
-    'Arr1i': TArr('int', 1), 'Arr2i': TArr('int', 2), 'Arr1b': TArr('bool', 1), 'Arr2b': TArr('bool', 2),
+    'Arr1i': TArr('int', 1), 'Arr2i': TArr('int', 2), 'Arr2o': TArr('int', 2), 'Arr1b': TArr('bool', 1), 'Arr2b': TArr('bool', 2),
     'SetOf': lambda e: TSet(e), 'ListOf': lambda e: TList(e), 'Tup': lambda *e: TTuple(*e),
     'DictOf': lambda k, v: TDict(k, v),
     'NoneType': TOpaque('none'), 'Opaque': TOpaque('opaque'), 'Callable': TOpaque('callable'),
